@@ -23,6 +23,7 @@ THEOREMS = [
     'Pyiga.Props.C14.glue_spec',
     'Pyiga.Props.C14.glue_numbering',
     'Pyiga.Props.C14.glue_numdofs_eq_classes',
+    'Pyiga.Props.C14.glue_order_independent',
     'Pyiga.Props.C14.glue_spec_calls',
     'Pyiga.Props.C14.glue_spec_boundaries',
     'Pyiga.Props.C14.glue_spec_partial',
@@ -256,6 +257,12 @@ def oracle(shapes, calls, M=None):
                 return 'patch_to_global(%d) disagrees with patch_to_global_idx' % p
             if one_per_patch and not np.array_equal(X.T @ X, np.eye(n)):
                 return 'patch_to_global(%d)^T is not a left inverse' % p
+            if not np.array_equal(M.global_to_patch(p).toarray(), X.T):
+                return 'global_to_patch(%d) is not the transpose of patch_to_global' % p
+            Xg = M.patch_to_global(p, j_global=True).toarray()
+            ofs = int(M.N_ofs[p])
+            if Xg.shape != (nd, int(M.N_ofs[-1])) or not np.array_equal(Xg[:, ofs:ofs + n], X) or Xg.sum() != n:
+                return 'patch_to_global(%d, j_global=True) is not patch_to_global(%d) placed at column offset N_ofs' % (p, p)
         return None
     except Exception as ex:
         return 'implementation raised %s: %s' % (type(ex).__name__, str(ex)[:160])
